@@ -53,6 +53,57 @@ def nontrivial_pair(r):
     return row["a"] not in (0,) and row["b"] not in (0,) and row["res"] != row["a"] and row["res"] != row["b"]
 
 
+
+def trace_engine(rep, unames, reals, *, ntr, nsteps, acts_for_prop, seed_offset=0, gens=("m1", "M1", "s1", "S1"), maxframe=2):
+    """code -> spec: random programs (drawn here from VERIF_SEED, not by TLC) executed on
+    the real library, observed, and validated by TLC against TraceShapeSys; plus negative
+    controls (corrupted copies of accepted traces must be rejected)"""
+    from . import trace
+    jobs = []
+    for i, un in enumerate(unames):
+        for j, rn in enumerate(reals):
+            for c in range(4):
+                jobs.append((un, rn, runner.seed() * 1000 + seed_offset + 17 * i + 5 * j + c, max(1, ntr // 4), nsteps, {"gens": gens, "maxframe": maxframe}))
+    recs = runner.pool_map(trace.record_job, jobs, chunksize=1)
+    by_u = {}
+    for job, r in zip(jobs, recs):
+        if isinstance(r, dict):
+            rep.machinery.append(r["machinery"])
+            continue
+        by_u.setdefault(job[0], []).extend(r)
+    negs = {"tried": 0, "rejected": 0}
+    for un, trs in by_u.items():
+        res = trace.validate(un, trs, gens=gens, maxframe=maxframe)
+        rep.add_tlc("TraceShapeSys/" + un, res if res.ok or res.rejected else res)
+        if not res.ok and not res.rejected:
+            continue
+        rep.cov["traces_validated_against_impl"] += len(trs)
+        rep.cov["evaluations"] += len(trs)
+        for t in trs:
+            rep.distinct.add((un, t["real"], json.dumps([[e["act"], e.get("op"), e.get("a"), e.get("b"), e.get("d")] for e in t["events"]])))
+        if len(rep.cov["samples"]) < 4 and trs:
+            t = trs[0]
+            rep.cov["samples"].append({"recorded_trace": {"universe": un, "realisation": t["real"],
+                                       "events": [{k: v for k, v in e.items() if k != "regs"} | {"observed_regions": [r["reg"] for r in e["regs"]]} for e in t["events"]]}})
+        for (ti, li) in res.rejected:
+            t = trs[ti - 1]
+            ev = t["events"][li - 1] if li - 1 < len(t["events"]) else {"act": "?"}
+            if acts_for_prop is None or ev["act"] in acts_for_prop:
+                key = "trace/%s/%s/%s" % (un, t["real"], ev["act"])
+                rep.finding_or_violation(key, {"what": "recorded execution rejected by TraceShapeSys", "event_index": li, "event": ev,
+                                               "events": [{k: v for k, v in e.items() if k != "regs"} for e in t["events"][:li]],
+                                               "observed": ev.get("regs")})
+        # negative controls
+        bad = trace.corrupt(trs, random.Random(runner.seed() + 3))
+        if bad:
+            r2 = trace.validate(un, bad, gens=gens, maxframe=maxframe, tag="MCTRN_" + un)
+            negs["tried"] += len(bad)
+            negs["rejected"] += len({ti for ti, _ in r2.rejected})
+            if len({ti for ti, _ in r2.rejected}) != len(bad):
+                rep.machinery.append("negative control accepted by TLC on %s: %r vs %r" % (un, [b["corrupted"] for b in bad], r2.rejected))
+    rep.cov["negative_controls"] = negs
+
+
 # ---------------------------------------------------------------------------
 def check_C01(tier, rng, rep):
     """boolean operators are set-theoretic, point by point"""
@@ -84,6 +135,9 @@ def check_C01(tier, rng, rep):
         rep.add_tlc("ShapeSys-sim/" + un, r)
     res = runner.pool_map(replay.run_case, jobs)
     rep.add_results("sim", res)
+    # (d) code -> spec: recorded random programs validated by TLC
+    trace_engine(rep, [rng.choice(U2[2:]), rng.choice(["U3hole", "U3chain"])] if quick else U2[2:] + U3, ["poly-frac", "poly-float"] if quick else POLY + CURVED[:2],
+                 ntr=16 if quick else 60, nsteps=10, acts_for_prop={"Bin", "Inv"}, gens=(), maxframe=0)
     rep.assumptions += [
         "witness points are classified in the rational pre-image of the realisation (exact); projection uses one witness per inner cell plus far points",
         "operands of the one-step corpus are built with the direct constructors (C19's subject)",
